@@ -271,6 +271,87 @@ class Result:
             self.samples.append(case)
 
 
+def merge_results(dst: "Result", src: "Result"):
+    dst.evaluations += src.evaluations
+    dst.hashes |= src.hashes
+    for c in src.samples:
+        dst.sample(c)
+    dst.violations += src.violations
+    dst.mismatches += src.mismatches
+    for k, v in src.stats.items():
+        dst.stats[k] = dst.stats.get(k, 0) + v
+    dst.traces += src.traces
+    for a in src.assumptions:
+        if a not in dst.assumptions:
+            dst.assumptions.append(a)
+
+
+def fork_map(n, worker, nproc=None, min_parallel=120, chunk=250):
+    """Run `worker(indices) -> picklable` over range(n) in forked children, `chunk` cases per child, at most `nproc`
+    children at a time (short-lived children: a long run with the cyclic GC switched off slows down badly).  The cases are
+    independent and each derives its randomness from its own index, so the outcome does not depend on the partition.
+    Returns the list of the children's return values in chunk order.  Small n: one in-process call."""
+    import pickle
+    import select as _select
+
+    if nproc is None:
+        nproc = int(os.environ.get("VERIF_JOBS", "0")) or min(12, os.cpu_count() or 1)
+    if n < min_parallel or nproc <= 1:
+        return [worker(list(range(n)))]
+    chunks = [list(range(lo, min(lo + chunk, n))) for lo in range(0, n, chunk)]
+    results = [None] * len(chunks)
+    errors = []
+    pending = list(enumerate(chunks))
+    running = {}   # read fd -> (pid, chunk number, bytearray)
+
+    def start(k, idx):
+        r, w = os.pipe()
+        pid = os.fork()
+        if pid == 0:
+            code = 0
+            try:
+                os.close(r)
+                try:
+                    payload = pickle.dumps(("ok", worker(idx)))
+                except BaseException as e:  # noqa: BLE001
+                    import traceback
+
+                    payload = pickle.dumps(("error", "%r\n%s" % (e, traceback.format_exc())))
+                    code = 1
+                with os.fdopen(w, "wb") as f:
+                    f.write(payload)
+            finally:
+                os._exit(code)
+        os.close(w)
+        running[r] = (pid, k, bytearray())
+
+    while pending or running:
+        while pending and len(running) < nproc:
+            k, idx = pending.pop(0)
+            start(k, idx)
+        ready, _, _ = _select.select(list(running), [], [], 1.0)
+        for r in ready:
+            pid, k, buf = running[r]
+            data = os.read(r, 1 << 20)
+            if data:
+                buf += data
+                continue
+            os.close(r)
+            os.waitpid(pid, 0)
+            del running[r]
+            if not buf:
+                errors.append("child %d died without a result" % pid)
+                continue
+            kind, val = pickle.loads(bytes(buf))
+            if kind == "ok":
+                results[k] = val
+            else:
+                errors.append(val)
+    if errors:
+        raise ToolFailure("parallel worker failed: " + errors[0][-2000:])
+    return results
+
+
 def known_findings(prop: str):
     path = os.path.join(VERIF, "known_findings.json")
     if not os.path.exists(path):
